@@ -1,23 +1,30 @@
 import Driver.Proto
 import Driver.Hb
-/-! Model driver: one request per line on stdin, one answer per line on stdout. -/
+import Driver.Store
+/-! Model driver: one request per line on stdin, one answer per line on stdout.
+    Pure areas answer from the request alone; `store` threads the backend states. -/
 open Drv
 
-def dispatch (line : String) : String :=
-  match (line.splitOn " ").filter (· ≠ "") with
-  | "hb" :: r => Hb.handle r
-  | [] => "bad empty"
-  | a :: _ => s!"bad area {a}"
+structure State where
+  store : Store.DrvSt := {}
 
-partial def loop (hin : IO.FS.Stream) (hout : IO.FS.Stream) : IO Unit := do
+def dispatch (st : State) (line : String) : State × String :=
+  match (line.splitOn " ").filter (· ≠ "") with
+  | "hb" :: r => (st, Hb.handle r)
+  | "store" :: r => let (s', out) := Store.handle st.store r; ({ st with store := s' }, out)
+  | [] => (st, "bad empty")
+  | a :: _ => (st, s!"bad area {a}")
+
+partial def loop (hin : IO.FS.Stream) (hout : IO.FS.Stream) (st : State) : IO Unit := do
   let line ← hin.getLine
   if line.isEmpty then return ()
   let l := line.trimAscii.toString
-  hout.putStrLn (dispatch l)
-  loop hin hout
+  let (st', out) := dispatch st l
+  hout.putStrLn out
+  loop hin hout st'
 
 def main : IO Unit := do
   let hin ← IO.getStdin
   let hout ← IO.getStdout
-  loop hin hout
+  loop hin hout {}
   hout.flush
